@@ -121,12 +121,19 @@ impl NavigationState {
         };
     }
 
+    /// Called when a new expression is set: forget everything that refers to the old expression.
     pub fn reset(&mut self) {
+        self.clear_stacks();
+        // the place markers hold ids of the old expression -- moving to one would leave navigation on a node that no longer exists
+        self.place_markers = Default::default();
+    }
+
+    /// Forget the navigation history. The expression is unchanged, so the place markers remain valid and are kept.
+    fn clear_stacks(&mut self) {
         self.position_stack.clear();
         self.command_stack.clear();
         self.where_am_i = NavigationPosition::default();
         self.reset_start_time()
-        
     }
 
 
@@ -272,7 +279,7 @@ pub fn set_navigation_node_from_id(mathml: Element, id: String, offset: usize) -
         }
         return NAVIGATION_STATE.with(|nav_state| {
             let mut nav_state = nav_state.borrow_mut();
-            nav_state.reset();
+            nav_state.clear_stacks();
             nav_state.push(NavigationPosition{
                 current_node: id,
                 current_node_offset: offset
